@@ -662,3 +662,177 @@ func c09r5(rc *core.RC) {
 		rc.Unknown("decoder/FullRune-sites", token.NoPos, "no utf8.FullRune test on the stream window found")
 	}
 }
+
+// ---- C09.R6 window splices keep s.length consistent ----
+
+// concatPieces flattens append(append(P, Q...), R...) into [P, Q, R]; append([]byte{}, X...) contributes X only.
+func concatPieces(info *types.Info, e ast.Expr) ([]ast.Expr, bool) {
+	e = core.Unparen(e)
+	call, ok := e.(*ast.CallExpr)
+	if !ok || !core.IsBuiltin(info, call, "append") {
+		return []ast.Expr{e}, true
+	}
+	if len(call.Args) != 2 || !call.Ellipsis.IsValid() {
+		return nil, false
+	}
+	head, ok := concatPieces(info, call.Args[0])
+	if !ok {
+		return nil, false
+	}
+	// an empty literal head contributes nothing
+	if len(head) == 1 {
+		if cl, isLit := core.Unparen(head[0]).(*ast.CompositeLit); isLit && len(cl.Elts) == 0 {
+			head = nil
+		}
+	}
+	return append(head, call.Args[1]), true
+}
+
+func c09r6(rc *core.RC) {
+	p := rc.P
+	pk := p.Pkg("decoder")
+	n := 0
+	for _, fd := range p.Funcs("decoder") {
+		if fd.Body == nil {
+			continue
+		}
+		info := p.Info(fd)
+		le := &core.LinearEval{Info: info, Pkg: pk, Body: fd.Body}
+		isStreamField := func(e ast.Expr, name string) bool {
+			f := core.FieldOf(info, e)
+			if f == nil || f.Name() != name {
+				return false
+			}
+			sel := core.Unparen(e).(*ast.SelectorExpr)
+			s := info.Selections[sel]
+			return s != nil && strings.HasSuffix(strings.TrimPrefix(s.Recv().String(), "*"), "decoder.Stream")
+		}
+		// every statement list
+		var lists [][]ast.Stmt
+		ast.Inspect(fd.Body, func(m ast.Node) bool {
+			switch x := m.(type) {
+			case *ast.BlockStmt:
+				lists = append(lists, x.List)
+			case *ast.CaseClause:
+				lists = append(lists, x.Body)
+			}
+			return true
+		})
+		for _, list := range lists {
+			for _, st := range list {
+				as, ok := st.(*ast.AssignStmt)
+				if !ok || len(as.Lhs) != 1 || len(as.Rhs) != 1 || !isStreamField(as.Lhs[0], "buf") {
+					continue
+				}
+				pieces, ok := concatPieces(info, as.Rhs[0])
+				if !ok || len(pieces) < 2 {
+					continue
+				}
+				// is it a splice of s.buf itself?
+				uses := false
+				delta := core.LinConst(0)
+				understood := true
+				for _, pc := range pieces {
+					if se, ok := core.Unparen(pc).(*ast.SliceExpr); ok && isStreamField(se.X, "buf") {
+						uses = true
+						switch {
+						case se.Low == nil && se.High != nil: // [:A] contributes A bytes
+							delta = delta.Add(le.Eval(se.High))
+						case se.Low != nil && se.High == nil: // [B:] drops the first B bytes of the old window
+							delta = delta.Sub(le.Eval(se.Low))
+						case se.Low != nil && se.High != nil:
+							delta = delta.Add(le.Eval(se.High)).Sub(le.Eval(se.Low))
+							understood = false // a middle piece does not include the old tail: not the splice idiom
+						default:
+							understood = false
+						}
+						continue
+					}
+					// inserted bytes
+					delta = delta.Add(le.Eval(&ast.CallExpr{Fun: ast.NewIdent("len"), Args: []ast.Expr{pc}}))
+					if !delta.OK {
+						// len(x) of an arbitrary expression: name it by its source
+						understood = false
+					}
+				}
+				if !uses {
+					continue
+				}
+				n++
+				rc.Touch(p.FuncName(fd))
+				key := fmt.Sprintf("%s/splice %s", p.FuncName(fd), core.Clip(core.Src(p.Fset, as.Rhs[0]), 50))
+				if !understood || !delta.OK {
+					// try again evaluating inserted lengths by hand (len(ident))
+					delta = core.LinConst(0)
+					understood = true
+					for _, pc := range pieces {
+						if se, ok := core.Unparen(pc).(*ast.SliceExpr); ok && isStreamField(se.X, "buf") {
+							if se.Low == nil && se.High != nil {
+								delta = delta.Add(le.Eval(se.High))
+							} else if se.Low != nil && se.High == nil {
+								delta = delta.Sub(le.Eval(se.Low))
+							} else {
+								understood = false
+							}
+							continue
+						}
+						lenCall := &ast.CallExpr{Fun: &ast.Ident{Name: "len"}, Args: []ast.Expr{pc}}
+						_ = lenCall
+						if id, ok := core.Unparen(pc).(*ast.Ident); ok {
+							delta = delta.Add(core.Linear{Terms: map[string]int64{"len(" + id.Name + ")": 1}, OK: true})
+						} else {
+							understood = false
+						}
+					}
+				}
+				if !understood || !delta.OK {
+					rc.Unknown(key, as.Pos(), "splice of the stream window not understood")
+					continue
+				}
+				// length updates in the same statement list
+				upd := core.LinConst(0)
+				found := false
+				for _, s2 := range list {
+					switch x := s2.(type) {
+					case *ast.IncDecStmt:
+						if isStreamField(x.X, "length") {
+							found = true
+							if x.Tok == token.INC {
+								upd = upd.Add(core.LinConst(1))
+							} else {
+								upd = upd.Sub(core.LinConst(1))
+							}
+						}
+					case *ast.AssignStmt:
+						if len(x.Lhs) == 1 && isStreamField(x.Lhs[0], "length") {
+							found = true
+							switch x.Tok {
+							case token.ADD_ASSIGN:
+								upd = upd.Add(le.Eval(x.Rhs[0]))
+							case token.SUB_ASSIGN:
+								upd = upd.Sub(le.Eval(x.Rhs[0]))
+							case token.ASSIGN:
+								// s.length = s.length ± E
+								v := le.Eval(x.Rhs[0])
+								self := core.Linear{Terms: map[string]int64{types.ExprString(core.Unparen(x.Lhs[0])): 1}, OK: true}
+								upd = upd.Add(v.Sub(self))
+							}
+						}
+					}
+				}
+				if !found {
+					rc.Bad(key, as.Pos(), "the window is spliced (net change %s bytes) but s.length is not updated next to it", delta)
+					continue
+				}
+				if upd.Equal(delta) {
+					rc.OK(key, as.Pos(), "s.length changes by %s, the net size of the splice", delta)
+				} else {
+					rc.Bad(key, as.Pos(), "the splice changes the amount of data in the window by %s but s.length is changed by %s: until the next refill the scanners believe the window holds %s more bytes than it does, so a token cut by a chunk boundary looks complete", delta, upd, upd.Sub(delta))
+				}
+			}
+		}
+	}
+	if n < 3 {
+		rc.Unknown("decoder/window-splices", token.NoPos, "found %d in-place splices of the stream window (confirmed: decodeUnicode, decodeEscapeString, 2 in stringBytes)", n)
+	}
+}
